@@ -25,6 +25,7 @@ import (
 // Ops:
 //   rune    <bytes>                       | rune size            utf8.DecodeRune
 //   encstr  <ascii> <bytes>               | literal              text.Encoder.WriteString
+//   go_encstr <ascii> <bytes>             | ok literal / panic / fuel    same, model side = translated source of appendString
 //   decstr  <literal>                     | ok bytes / eof / syntax      text.UnmarshalString
 //   strval  <legacy> <input>              | scalar token observed through text.Decoder on "f:"+input
 //   num     <legacy> <input>              | same code path, number/literal shaped inputs
@@ -370,6 +371,8 @@ func textString(c *Ctx, b []byte, viaProto bool) {
 	for _, ascii := range []bool{false, true} {
 		lit := textEncStr(b, ascii)
 		c.Case(textFam, "encstr", []string{Tok(ascii), HexB(b)}, []string{HexB(lit)})
+		// the same observation against the translated Go source (Gen/TextEscGo.v)
+		c.Case(textFam, "go_encstr", []string{Tok(ascii), HexB(b)}, []string{"ok", HexB(lit)})
 		back, err := text.UnmarshalString(string(lit))
 		if err != nil || back != string(b) {
 			c.PropFail("C25", "string literal does not parse back", Tok(ascii), HexB(b), HexB(lit))
